@@ -1,4 +1,5 @@
 import BU.Properties.C19
+import BU.Properties.C19_Gen
 #print axioms C19.fromPath_spec
 #print axioms C19.foldl_root
 #print axioms C19.from_path_resets
@@ -7,3 +8,10 @@ import BU.Properties.C19
 #print axioms C19.network_ok
 #print axioms C19.get_private_key_exact
 #print axioms C19.derived_key_valid
+#print axioms C19Gen.gen_from_path
+#print axioms C19Gen.gen_from_path_model
+#print axioms C19Gen.gen_from_path_resets
+#print axioms C19Gen.gen_init_mnemonic
+#print axioms C19Gen.gen_init_xprv
+#print axioms C19Gen.gen_get_private_key
+#print axioms C19Gen.gen_get_private_key_exact
